@@ -12,7 +12,8 @@ Import ListNotations.
 From Verif Require Import Base.Val C18.Fs C27.Model_C27.
 Local Open Scope N_scope.
 
-(* the validation value of the layout: mtime for the flat layout, md5 for md5-cache *)
+(* the validation value of the layout: the mtime in whole seconds, rounded DOWN (e_mtime =
+   e_stamp / 1000), for the flat layout; md5 for md5-cache *)
 Definition chf_num (lay : layout) (d : edata) : N :=
   match lay with Flat => e_mtime d | Md5 => e_md5 d end.
 
